@@ -649,7 +649,7 @@ pub fn gen_suffix(rng: &mut Rng) -> Vec<u8> {
     match rng.below(8) {
         0 | 1 => vec![],
         2 => rng.bytes(1),
-        3 => vec![0x44, 0x4c, 0x54, 0x01],
+        3 => vec![0x44, 0x4c, 0x54, 0x01][..1 + rng.below(4) as usize].to_vec(), // the pattern or a proper prefix of it
         4 => {
             let m = gen_message(rng, &MsgOpts::default());
             m.as_bytes()
